@@ -75,6 +75,12 @@ def constructed_cases(ctx):
             cases.append((f"no-interaction-atoms-{resn}", C.join(new + [C.TER]), []))
     cases.append(("cterm-without-C", C.join([ln for ln in last if not (ln[12:16].strip() == "C" and oxt and
                                                                      C.resid(ln) == C.resid(oxt[0]))] + [C.TER]), []))
+    # a disulfide bridge parallel to a coordinate axis, pushed along it in 0.01 A steps (bridged cysteines are 99.99
+    # wherever the two sulfurs lie relative to the bond search grid)
+    axes = (0, 1, 2) if ctx.thorough() else (ctx.seed % 3,)
+    for ax in axes:
+        for off, ls in C.disulfide_slides(ax, step=10 if ctx.thorough() else 13, span=2600, start=ctx.seed % 7):
+            cases.append((f"disulfide-along-{'xyz'[ax]}+{off}", C.join(ls), []))
     # chain selection and titrate-only on a two-chain construct
     two = no_oxt(a) + [C.TER] + no_oxt(b)
     cases.append(("two-chains -c B", C.join(two), ["-c", "B"]))
